@@ -38,8 +38,21 @@ def semantic(cmd):
 def oracle(ctx, budget=1, replay=None, hints=None):
     """process_line vs the live hooks on a twin state, line for line; untouched lines byte for byte; eol; isolation"""
     fails, n = [], 0
-    for _ in range(40 * budget):
-        f = SS.gen_file(ctx.rng)
+    from fractions import Fraction as _F2
+    def designed_file(rng):
+        """codes written with leading zeros (hosts pass them to the live hooks as written), arcs whose two directions differ in what they cross,
+        deferred codes in both spellings, numbered lines"""
+        regs = [('rect', 'a', _F2(10), _F2(10), _F2(20), _F2(20)), ('rect', 'b', _F2(33), _F2(36), _F2(37), _F2(44))]
+        prog = dict(g90e=False, enter=['M117 in'], exit=['M117 out'], ext={'M117': 'last', 'M204': 'merge', 'G4': 'exclude', 'M73': 'first'}, regions=regs,
+                    events=[], style='eonly', alen='1')
+        z = lambda c: c[0] + rng.choice(['', '0', '00']) + c[1:]
+        lines = ['G28', z('G1') + ' X5 Y5 E1 F3000', z('G1') + ' X15 Y15 E2', z('M117') + ' first text', z('M204') + ' S500', z('G4') + ' P10', z('M117') + ' second text',
+                 z('M73') + ' P5', z('G1') + ' X30 Y30 E3', z('G2') + ' X30 Y50 I0 J10 E4', z('G3') + ' X30 Y30 I0 J-10 E5', z('G1') + ' X15 Y15', z('M204') + ' P7',
+                 z('G1') + ' X50 Y50 E6']
+        lines = [('N%d %s' % (k, l) if rng.random() < 0.2 else l) + rng.choice(['\n', '\n', '\r\n']) for k, l in enumerate(lines)]
+        return dict(prog=prog, pre=[], lines=lines)
+    files = [SS.gen_file(ctx.rng) for _ in range(40 * budget)] + [designed_file(ctx.rng) for _ in range(12 * budget)]
+    for f in files:
         run = SS.Run(f)
         twin = impl.GcodeHandlers(copy.deepcopy(run.h.state), impl.LOG)
         sp = run.sp
